@@ -460,8 +460,12 @@ impl BsDriver {
                     match ValidatedShred::try_new(cs.raw[r].clone(), cached.as_ref(), &self.pk) {
                         Ok(v) => Some(v),
                         Err(alpenglow::shredder::ShredValidationError::Equivocation) => {
-                            // `Err(_) => return Ok(())`: nothing else happens in the node
+                            // consensus.rs: the shred proves equivocation -> the leader is flagged
+                            // (`Blockstore::flag_leader_misbehavior`), the shred itself is dropped
+                            let store = &mut self.store;
+                            futures::executor::block_on(store.flag_leader_misbehavior(sc.slot));
                             rets.push(json!("dropped"));
+                            evs.extend(self.drain_events(sc, None));
                             None
                         }
                         Err(e) => {
